@@ -83,6 +83,8 @@ Definition step0 (s : st) (e : ev) : st * outcome :=
       | Some (q0, _) =>
         (push (set_idx (set_pgl s (delete pg (pgl s))) (idx_del (idx s) q0 pg)) (sync_req q0), ONone)
       end
+  | EPgGone pg => (set_pgl s (delete pg (pgl s)), ONone)
+  | EPgDelLate pg q => (push (set_idx s (idx_del (idx s) q pg)) (sync_req q), ONone)
   | EQCreate q p =>
       match srv s !! q with
       | Some _ => (s, ONone)
